@@ -129,3 +129,74 @@ pub open spec fn shape_ok(r: Option<BoundSet>, cs: Seq<KCmp>) -> bool {
         None => cut_cmp(lower_cut(cs), upper_cut(cs)) != Ordering::Less,
     }
 }
+
+// ---- Seq-free form used by the exec-side shape contracts ----
+pub enum CSet { Zero, One(KCmp), Two(KCmp, KCmp) }
+pub open spec fn lc(c: KCmp) -> Cut { match c.op { Op::Ge => Cut::At(c.k, false), Op::Gt => Cut::At(c.k, true), Op::Eq => Cut::At(c.k, false), _ => Cut::NegInf } }
+pub open spec fn uc(c: KCmp) -> Cut { match c.op { Op::Le => Cut::At(c.k, true), Op::Lt => Cut::At(c.k, false), Op::Eq => Cut::At(c.k, true), _ => Cut::PosInf } }
+pub open spec fn cset_lo(c: CSet) -> Cut { match c { CSet::Zero => Cut::NegInf, CSet::One(a) => lc(a), CSet::Two(a, _) => lc(a) } }
+pub open spec fn cset_hi(c: CSet) -> Cut { match c { CSet::Zero => Cut::PosInf, CSet::One(a) => uc(a), CSet::Two(_, b) => uc(b) } }
+pub open spec fn cset_seq(c: CSet) -> Seq<KCmp> { match c { CSet::Zero => Seq::empty(), CSet::One(a) => s1(a), CSet::Two(a, b) => s2(a, b) } }
+pub open spec fn shape_ok_c(r: Option<BoundSet>, c: CSet) -> bool {
+    match r {
+        Some(bs) => bs_wf(bs) && cut_of(*bs.lower) == cset_lo(c) && cut_of(*bs.upper) == cset_hi(c),
+        None => cut_cmp(cset_lo(c), cset_hi(c)) != Ordering::Less,
+    }
+}
+pub open spec fn any_c() -> CSet { CSet::One(ge(k3(0, 0, 0))) }
+pub open spec fn null_c() -> CSet { CSet::One(lt(k4(0, 0, 0, pre0()))) }
+pub open spec fn npm_tilde_c(p: Partial) -> CSet {
+    let pre = p.pre_release@;
+    if xM(p) { any_c() }
+    else if xm(p) { CSet::Two(ge(k3(pM(p), 0, 0)), lt(k4(pM(p) + 1, 0, 0, pre0()))) }
+    else if xp(p) { CSet::Two(ge(k3(pM(p), pm(p), 0)), lt(k4(pM(p), pm(p) + 1, 0, pre0()))) }
+    else { CSet::Two(ge(k4(pM(p), pm(p), pp(p), pre)), lt(k4(pM(p), pm(p) + 1, 0, pre0()))) }
+}
+pub open spec fn npm_caret_c(p: Partial) -> CSet {
+    let pre = p.pre_release@;
+    if xM(p) { any_c() }
+    else if xm(p) { CSet::Two(ge(k3(pM(p), 0, 0)), lt(k4(pM(p) + 1, 0, 0, pre0()))) }
+    else if xp(p) { if pM(p) == 0 { CSet::Two(ge(k3(0, pm(p), 0)), lt(k4(0, pm(p) + 1, 0, pre0()))) } else { CSet::Two(ge(k3(pM(p), pm(p), 0)), lt(k4(pM(p) + 1, 0, 0, pre0()))) } }
+    else if pM(p) == 0 && pm(p) == 0 { CSet::Two(ge(k4(0, 0, pp(p), pre)), lt(k4(0, 0, pp(p) + 1, pre0()))) }
+    else if pM(p) == 0 { CSet::Two(ge(k4(0, pm(p), pp(p), pre)), lt(k4(0, pm(p) + 1, 0, pre0()))) }
+    else { CSet::Two(ge(k4(pM(p), pm(p), pp(p), pre)), lt(k4(pM(p) + 1, 0, 0, pre0()))) }
+}
+pub open spec fn npm_plain_c(p: Partial) -> CSet {
+    let pre = p.pre_release@;
+    if xM(p) { any_c() }
+    else if xm(p) { CSet::Two(ge(k3(pM(p), 0, 0)), lt(k4(pM(p) + 1, 0, 0, pre0()))) }
+    else if xp(p) { CSet::Two(ge(k3(pM(p), pm(p), 0)), lt(k4(pM(p), pm(p) + 1, 0, pre0()))) }
+    else { CSet::One(eqc(k4(pM(p), pm(p), pp(p), pre))) }
+}
+pub open spec fn npm_primitive_c(op: Operation, p: Partial) -> CSet {
+    let pre = p.pre_release@;
+    if xM(p) { match op { Operation::GreaterThan | Operation::LessThan => null_c(), _ => any_c() } }
+    else if xm(p) { match op {
+        Operation::GreaterThan => CSet::One(ge(k3(pM(p) + 1, 0, 0))),
+        Operation::GreaterThanEquals => CSet::One(ge(k3(pM(p), 0, 0))),
+        Operation::LessThan => CSet::One(lt(k4(pM(p), 0, 0, pre0()))),
+        Operation::LessThanEquals => CSet::One(lt(k4(pM(p) + 1, 0, 0, pre0()))),
+        Operation::Exact => CSet::Two(ge(k3(pM(p), 0, 0)), lt(k4(pM(p) + 1, 0, 0, pre0()))),
+    } }
+    else if xp(p) { match op {
+        Operation::GreaterThan => CSet::One(ge(k3(pM(p), pm(p) + 1, 0))),
+        Operation::GreaterThanEquals => CSet::One(ge(k3(pM(p), pm(p), 0))),
+        Operation::LessThan => CSet::One(lt(k4(pM(p), pm(p), 0, pre0()))),
+        Operation::LessThanEquals => CSet::One(lt(k4(pM(p), pm(p) + 1, 0, pre0()))),
+        Operation::Exact => CSet::Two(ge(k3(pM(p), pm(p), 0)), lt(k4(pM(p), pm(p) + 1, 0, pre0()))),
+    } }
+    else { let k = k4(pM(p), pm(p), pp(p), pre); match op {
+        Operation::GreaterThan => CSet::One(gt(k)), Operation::GreaterThanEquals => CSet::One(ge(k)), Operation::LessThan => CSet::One(lt(k)), Operation::LessThanEquals => CSet::One(le(k)), Operation::Exact => CSet::One(eqc(k)),
+    } }
+}
+pub open spec fn npm_hyphen_c(f: Partial, t: Partial) -> CSet {
+    match (npm_hyphen_from(f), npm_hyphen_to(t)) {
+        (Some(a), Some(b)) => CSet::Two(a, b), (Some(a), None) => CSet::One(a), (None, Some(b)) => CSet::One(b), (None, None) => CSet::Zero,
+    }
+}
+/// same admitted versions (components within MAX_SAFE_INTEGER) although the bounds are written differently
+pub open spec fn shape_equiv_c(r: Option<BoundSet>, c: CSet) -> bool {
+    r matches Some(bs) && bs_wf(bs) && forall|v: VKey| #![trigger within(bs, v)] wfk(v) ==>
+        (above(cut_of(*bs.lower), v) <==> above(cset_lo(c), v)) && (below(cut_of(*bs.upper), v) <==> below(cset_hi(c), v))
+        && (within(bs, v) ==> (gate(bs, v) <==> set_gate(cset_seq(c), v)))
+}
